@@ -18,7 +18,14 @@ impl<'a> BerDecoder<'a> for SnmpRelativeOid<'a> {
 
     // Implement X.690 pp 8.20: Encoding of a relative object identifier value
     fn decode(i: &'a [u8], h: &BerHeader) -> SnmpResult<Self> {
-        Ok(SnmpRelativeOid(&i[..h.length]))
+        let v = &i[..h.length];
+        // 8.20.2: the contents never end in the middle of a subidentifier
+        if let Some(last) = v.last() {
+            if *last & 0x80 != 0 {
+                return Err(SnmpError::InvalidData);
+            }
+        }
+        Ok(SnmpRelativeOid(v))
     }
 }
 
